@@ -225,4 +225,28 @@ func WriteCollection
   ensures r0 == nil ==> sel(io.wlen, writer) == cbend
   -- a count that does not fit the prefix is an error
   ensures cbcount > (lenType == serializer.SeriLengthPrefixTypeAsByte ? 255 : (lenType == serializer.SeriLengthPrefixTypeAsUint16 ? 65535 : (lenType == serializer.SeriLengthPrefixTypeAsUint32 ? 4294967295 : MaxInt64))) ==> r0 != nil
+
+-- ---------------------------------------------------------------------------------------------------------------
+-- ByteBuffer, the module's own in-memory io.WriteSeeker: the implementation of the seekable-stream model for position
+-- and length (contents: the in-place overwrite goes through the slice bytes.Buffer.Bytes hands out, which the buffer
+-- model does not tie back to the buffer - the written bytes are not decided here)
+-- Write: everything is written, at the position, and the position advances by exactly what was written - whether the
+-- write stays inside the existing data, runs over its end, or starts behind it (the gap is filled first)
+func ByteBuffer.Write
+  opt assume-no-overflow
+  requires w != nil && w.buf != nil && w.pos >= 0
+  modifies w.pos, *w.buf, w.buf.data, w.buf.n, allelems(byte)
+  ensures err == nil && n == len(p) && w.pos == old(w.pos) + len(p)
+  ensures w.buf.n == (old(w.pos) + len(p) > old(w.buf.n) ? old(w.pos) + len(p) : old(w.buf.n))
+
+-- Seek: the new position relative to the start, the current position or the end; a negative result is an error and
+-- leaves the position where it was
+func ByteBuffer.Seek
+  opt assume-no-overflow
+  requires w != nil && w.buf != nil
+  modifies w.pos
+  ensures whence == 0 && offset >= 0 ==> r1 == nil && r0 == offset && w.pos == offset
+  ensures whence == 1 && old(w.pos) + offset >= 0 ==> r1 == nil && r0 == old(w.pos) + offset && w.pos == r0
+  ensures whence == 2 && w.buf.n + offset >= 0 ==> r1 == nil && r0 == w.buf.n + offset && w.pos == r0
+  ensures r1 != nil ==> w.pos == old(w.pos)
 @*/
